@@ -4,7 +4,20 @@ flow size) and asks the real UrwidImageCanvas for sub-rectangles, directly
 trimming.  A case is a HISTORY: several renders of one widget (or of widgets sharing one image
 object) at different sizes, with content() requests on earlier canvases in between and after.
 Returns, per canvas, the lines / image size / untrimmed content captured when it was built and
-every later request's rows (as indices into a table of distinct rows)."""
+every later request's rows (as indices into a table of distinct rows).
+
+Round 4: (a) SIMULTANEOUS requests — ["inter", canvas, groups]: k = 2..3 content() generators of
+one canvas created together and advanced by a schedule of next() calls (lock-step, one ahead,
+one after the other, random, abandoned half-way and drained later); ["compose", widget, size,
+layout]: the widget inside REAL urwid compositions (nested urwid.Overlay with the image partly
+covered, urwid.Columns showing the same widget twice) rendered through CompositeCanvas.content()
+with every UrwidImageCanvas.content() call urwid makes — arguments, and each row in the order
+urwid pulls them — recorded.  Each request's rows become an ordinary observation (judged
+against the crop of ITS sub-rectangle); the schedule and the sequence of next() results are
+returned too.  (b) FAILING renders — the image is backed by a file that vanishes / is
+overwritten with garbage, or by a renderer that raises, switched on and off by ["fail", bool]
+steps, with an error placeholder of any sizing kind installed (or none): rows() before / after,
+the canvas render() returns (size, rows content() yields, their widths) or the exception."""
 import implenv
 from implenv import tests
 import impl_render
@@ -81,16 +94,253 @@ def pick_trims(case, W, H, w, h, salt):
     return trims
 
 
+class Spy:
+    """Records every UrwidImageCanvas.content() call made while installed: the canvas, the
+    arguments, and — in the global order in which the generators are advanced — what each
+    next() returned."""
+
+    def __init__(self):
+        self.calls, self.events, self.passthrough = [], [], False
+        self.orig = None
+
+    def __enter__(self):
+        spy, orig = self, UrwidImageCanvas.content
+        self.orig = orig
+
+        def content(canv, trim_left=0, trim_top=0, cols=None, rows=None, attr_map=None):
+            it = orig(canv, trim_left, trim_top, cols, rows, attr_map)
+            if spy.passthrough:
+                return it
+            spy.calls.append({"canv": canv, "req": [trim_left, trim_top, cols, rows], "it": it, "rows": [], "done": False})
+            return spy.wrap(len(spy.calls) - 1)
+
+        UrwidImageCanvas.content = content
+        return self
+
+    def __exit__(self, *exc):
+        UrwidImageCanvas.content = self.orig
+
+    def advance(self, idx):
+        call = self.calls[idx]
+        try:
+            row = next(call["it"])
+        except StopIteration:
+            self.events.append((idx, None))
+            call["done"] = True
+            return None
+        self.events.append((idx, row))
+        call["rows"].append(row)
+        return row
+
+    def wrap(self, idx):
+        while True:
+            row = self.advance(idx)
+            if row is None:
+                return
+            yield row
+
+
+def record_group(rec, reqs, rows_of, events, si):
+    """One group of simultaneous requests on the canvas of `rec`: each request's rows as an
+    ordinary observation; the schedule and what every next() returned (table index / -1)."""
+    pos, idxs = [], []
+    for rq, got in zip(reqs, rows_of):
+        dis, ix = rec.enc(got)
+        pos.append(len(rec.d["obs"]))
+        rec.d["obs"].append([*rq, dis, ix])
+        rec.d["obs_step"].append(si)
+        idxs.append(ix)
+    taken = [0] * len(reqs)
+    sched, ev = [], []
+    for i, row in events:
+        sched.append(i)
+        if row is None:
+            ev.append(-1)
+        else:
+            ev.append(idxs[i][taken[i]])
+            taken[i] += 1
+    rec.d["inter"].append({"obs": pos, "sched": sched, "ev": ev, "step": si, "reqs": [list(r) for r in reqs]})
+
+
+def run_group(rec, reqs, sched, si, limit):
+    """k generators of one canvas created together, advanced as `sched` says, then each run to
+    its end (the next() that raises StopIteration included), in order."""
+    canv = rec.canv
+    its = [canv.content(*rq) for rq in reqs]
+    got = [[] for _ in reqs]
+    events = []
+
+    def adv(i):
+        try:
+            row = next(its[i])
+        except StopIteration:
+            events.append((i, None))
+            return False
+        got[i].append(row)
+        events.append((i, row))
+        return len(got[i]) <= limit
+
+    for i in sched:
+        if 0 <= i < len(its):
+            adv(i)
+    for i in range(len(its)):
+        while adv(i):
+            pass
+    record_group(rec, reqs, got, events, si)
+
+
+def auto_groups(case, W, H, w, h, salt, n):
+    """Seeded groups of simultaneous requests: the pieces beside / above / below a covered
+    rectangle (what an overlay leaves visible), arbitrary rectangles; every advancing pattern."""
+    import random
+    rng = random.Random(case.get("rseed", 0) * 7919 + salt)
+
+    def rect():
+        # mostly tall (several rows to be in flight over), any columns
+        rows = rng.randint(max(1, H // 2), H) if rng.random() < 0.7 else rng.randint(1, H)
+        tt = rng.randrange(H - rows + 1)
+        tl = rng.randrange(W)
+        return [tl, tt, rng.randint(1, W - tl), rows]
+
+    groups = []
+    for g in range(n):
+        kind = rng.choice(["beside", "beside", "beside", "rects", "rects", "same-columns"])
+        if kind == "beside" and W >= 2:
+            # a covered block [x0, x1) x [y0, y1): left and right pieces over the same rows, optionally another piece
+            x0 = rng.randint(1, W - 1)
+            x1 = rng.randint(x0, W - 1)
+            y0 = rng.randrange(max(1, H - 1))
+            y1 = rng.randint(min(H, y0 + 2), H)
+            reqs = [[0, y0, x0, y1 - y0], [x1, y0, W - x1, y1 - y0]]
+            if rng.random() < 0.3:
+                reqs.append(rect())
+        elif kind == "same-columns":
+            r0, r1 = rect(), rect()
+            reqs = [r0, [r0[0], r1[1], r0[2], r1[3]]]
+        else:
+            reqs = [rect() for _ in range(rng.choice([2, 2, 3]))]
+        rng.shuffle(reqs)
+        k = len(reqs)
+        total = sum(r[3] for r in reqs)
+        pat = ["lock-step", "one-ahead", "sequential", "reverse", "random", "abandon"][g % 6] if n >= 6 else \
+            rng.choice(["lock-step", "lock-step", "one-ahead", "random", "reverse", "abandon"])
+        if pat == "lock-step":
+            sched = [i for _ in range(max(r[3] for r in reqs) + 1) for i in range(k)]
+        elif pat == "one-ahead":
+            sched = [0] + [i for _ in range(max(r[3] for r in reqs) + 1) for i in range(k)]
+        elif pat == "sequential":
+            sched = []
+        elif pat == "reverse":
+            sched = [i for i in reversed(range(k)) for _ in range(reqs[i][3] + 1)]
+        elif pat == "random":
+            sched = [rng.randrange(k) for _ in range(total + rng.randint(0, 3))]
+        else:  # the first request advanced part of the way, the others completely, the first finished last
+            sched = [0] * rng.randint(1, reqs[0][3]) + [i for i in range(1, k) for _ in range(reqs[i][3])]
+        groups.append({"reqs": reqs, "sched": sched})
+    return groups
+
+
+def make_placeholder(spec):
+    k = spec["kind"]
+    text = spec.get("text", "broken image")
+    if k == "solidfill":
+        return urwid.SolidFill("x")
+    if k == "text":
+        return urwid.Text(text)
+    if k == "filler":
+        return urwid.Filler(urwid.Text(text))
+    if k == "pile":
+        return urwid.Pile([urwid.Text(text), urwid.Divider("-"), urwid.Text("!")])
+    if k == "divider":
+        return urwid.Divider("-")
+    if k == "linebox":
+        return urwid.LineBox(urwid.Filler(urwid.Text(text)))
+    if k == "image":
+        from PIL import Image
+        return UrwidImage(BlockImage(Image.new("RGB", tuple(spec.get("size", (16, 4))), (90, 90, 90))))
+    raise ValueError(k)
+
+
+class Failure:
+    """Makes rendering of the image fail (and work again) while sizing keeps working."""
+
+    def __init__(self, how, cls, img):
+        import os
+        import tempfile
+        self.how, self.on = how, False
+        self.path = None
+        if how in ("vanish", "garbage"):
+            fd, self.path = tempfile.mkstemp(suffix=".png", prefix="c17_")
+            os.close(fd)
+            img.save(self.path)
+            self.data = open(self.path, "rb").read()
+            self.image = cls.from_file(self.path)
+        else:
+            failure = self
+
+            class Failing(cls):
+                def _render_image(self, *args, **kwargs):
+                    if failure.on:
+                        raise RuntimeError("the renderer failed")
+                    return super()._render_image(*args, **kwargs)
+
+            self.image = Failing(img)
+
+    def set(self, on):
+        import os
+        if on == self.on:
+            return
+        self.on = on
+        if self.how == "vanish":
+            if on:
+                os.rename(self.path, self.path + ".gone")
+            else:
+                os.rename(self.path + ".gone", self.path)
+        elif self.how == "garbage":
+            with open(self.path, "wb") as f:
+                f.write(b"not an image any more" if on else self.data)
+
+    def cleanup(self):
+        import os
+        for p in (self.path, (self.path or "") + ".gone"):
+            if p and os.path.exists(p):
+                os.remove(p)
+
+
+def probe(widget, size):
+    """[cols, rows] of the canvas the widget renders for that size, None if it refuses it."""
+    try:
+        c = widget.render(tuple(size))
+        return [c.cols(), c.rows()]
+    except Exception:
+        return None
+
+
+def content_shape(canv):
+    """(number of rows content() yields, every row is cols() columns wide — judged only on rows of
+    plain text)"""
+    rows_ = list(canv.content())
+    wide = True
+    for row in rows_:
+        texts = [seg[2] for seg in row]
+        if any(b"\x1b" in t or b"\0" in t for t in texts):
+            continue
+        if sum(urwid.calc_width(t, 0, len(t)) for t in texts) != canv.cols():
+            wide = False
+    return len(rows_), wide
+
+
 class Rec:
     """One canvas: everything captured WHEN IT WAS BUILT, then the observations made later."""
 
     def __init__(self, canv, widx, req, image, step):
+        # `image`: the image object (its size NOW is recorded), or the size itself
         self.canv = canv
         self.tbl, self.index = [], {}
         W, H = canv.cols(), canv.rows()
         self.d = {"widget": widx, "req": list(req), "built_at": step, "size": [W, H],
-                  "image_size": list(image._size), "lines": [ln.decode() for ln in canv._ti_lines],
-                  "obs": [], "obs_step": [], "full_later_same": True}
+                  "image_size": list(image if isinstance(image, (list, tuple)) else image._size), "lines": [ln.decode() for ln in canv._ti_lines],
+                  "obs": [], "obs_step": [], "full_later_same": True, "inter": []}
         self.d["fd"], self.d["full"] = self.enc(canv.content())
 
     def enc(self, rows_):
@@ -127,7 +377,8 @@ def apply_env(env, state):
 
 def run_case(case):
     """A history: one image, one or more UrwidImage widgets sharing it, a sequence of
-    ["render", widget, size], ["trim", canvas (ordinal of its render step), trims] and
+    ["render", widget, size], ["trim", canvas (ordinal of its render step), trims],
+    ["inter", canvas, groups | "auto"], ["compose", widget, [W, H], layout], ["fail", bool] and
     ["env", {...}] (environment change AFTER the widgets were constructed) steps.
     Canvases stay alive and are asked for content after later renders."""
     style = case["style"]
@@ -147,18 +398,42 @@ def run_case(case):
     saved_ts = (_common.get_terminal_size, term_image.utils.get_terminal_size)
     term_image.set_cell_ratio(0.5)
     envstate = {"ratio": 0.5, "cell_size": list(case.get("cell_size", (10, 20))), "term_size": [80, 30]}
+    failure = None
     try:
         img = impl_render.make_image(case["img"])
-        image = cls(img)
+        if case.get("fail"):
+            failure = Failure(case["fail"], cls, img)
+            image = failure.image
+        else:
+            image = cls(img)
+        placeholder = None
+        if case.get("placeholder"):
+            placeholder = make_placeholder(case["placeholder"])
+            UrwidImage.set_error_placeholder(placeholder)
         widgets = []
         for w in case["widgets"]:
             widget = UrwidImage(image, w.get("spec", ""), upscale=bool(w.get("upscale")))
             widget._ti_disguise_state = w.get("wstate", 0)
             widgets.append(widget)
-        recs, alias = [], []
+        recs, alias, phs = [], [], []
+
+        def rec_of(canv, si):
+            for r in recs:
+                if r.canv is canv:
+                    return r
+            widx = next((k for k, w in enumerate(widgets) if w is canv.widget_info[0]), 0)
+            rec = Rec(canv, widx, list(canv.size), list(canv._ti_image_size), si)
+            rec.d["text"] = isinstance(image, TextImage)
+            rec.d["env"] = dict(envstate, cell_ratio=term_image.get_cell_ratio())
+            recs.append(rec)
+            return rec
+
         for si, step in enumerate(case["steps"]):
             if step[0] == "env":
                 apply_env(step[1], envstate)
+            elif step[0] == "fail":
+                if failure:
+                    failure.set(bool(step[1]))
             elif step[0] == "render":
                 _, widx, size = step
                 widget, size = widgets[widx], tuple(size)
@@ -170,7 +445,33 @@ def run_case(case):
                     fit = list(image._valid_size(size[0]))
                     ori = list(image._valid_size(Size.ORIGINAL))
                     rm = widget.rows(size)
-                canv = widget.render(size)
+                failing = bool(failure and failure.on)
+                raised = None
+                try:
+                    canv = widget.render(size)
+                except Exception as e:
+                    if not failing:
+                        raise
+                    canv, raised = None, f"{type(e).__name__}: {e}"
+                if failing and not (isinstance(canv, UrwidImageCanvas) and canv.widget_info[0] is widget):
+                    # the image could not be rendered: the error placeholder's canvas, or the exception
+                    urwid.CanvasCache.clear()
+                    ph = {"widget": widx, "req": list(size), "step": si, "raised": raised, "fit": fit, "ori": ori,
+                          "rows_before": rm, "env": dict(envstate, cell_ratio=term_image.get_cell_ratio()),
+                          "rows_after": widget.rows(size) if len(size) == 1 else None, "installed": placeholder is not None}
+                    if canv is not None:
+                        n, wide = content_shape(canv)
+                        ph.update(canvas=type(canv).__name__, cols=canv.cols(), rows=canv.rows(), ncontent=n, wide=wide)
+                    if placeholder is not None:
+                        # the environment: what the placeholder widget does with a box / a flow size
+                        want = [size[0], rm if len(size) == 1 else size[1]]
+                        ph["ph_box"] = probe(placeholder, want) == want
+                        fl = probe(placeholder, [size[0]])
+                        ph["ph_flow"] = fl[1] if fl and fl[0] == size[0] else None
+                    urwid.CanvasCache.clear()
+                    phs.append(ph)
+                    alias.append(None)
+                    continue
                 if not isinstance(canv, UrwidImageCanvas):
                     return {"error": f"render returned {type(canv).__name__}"}
                 known = [k for k, r in enumerate(recs) if r.canv is canv]
@@ -191,8 +492,59 @@ def run_case(case):
                     rec.d["rows_method_after_fresh"] = widget.rows(size)
                 alias.append(len(recs))
                 recs.append(rec)
+            elif step[0] == "compose":
+                _, widx, (W, H), layout = step
+                if failure and failure.on:
+                    continue
+                widget = widgets[widx]
+                if not case.get("cache"):
+                    urwid.CanvasCache.clear()
+                base, total = widget, W
+                if layout.get("twin"):
+                    gap = layout.get("gap", 0)
+                    base = urwid.Columns([(W, widget), (W, widget)], dividechars=gap)
+                    total = 2 * W + gap
+                for l, t, ow, oh in layout.get("overlays", []):
+                    top = urwid.SolidFill("#") if (l + t) % 2 == 0 else urwid.Filler(urwid.Text("popup"))
+                    base = urwid.Overlay(top, base, align="left", width=ow, valign="top", height=oh, left=l, top=t)
+                with Spy() as spy:
+                    comp = base.render((total, H))
+                    screen = list(comp.content())
+                    if len(screen) != H:
+                        return {"error": f"composition of {H} rows yielded {len(screen)} rows"}
+                    for idx, call in enumerate(spy.calls):  # whatever urwid left unfinished is run to its end
+                        for _ in range(4 * H + 8):
+                            if call["done"] or spy.advance(idx) is None:
+                                break
+                    spy.passthrough = True
+                    canvs = []
+                    for call in spy.calls:
+                        if not any(c is call["canv"] for c in canvs):
+                            canvs.append(call["canv"])
+                    for canv in canvs:
+                        rec = rec_of(canv, si)
+                        mine = [idx for idx, call in enumerate(spy.calls) if call["canv"] is canv]
+                        local = {idx: k for k, idx in enumerate(mine)}
+                        record_group(rec, [spy.calls[idx]["req"] for idx in mine], [spy.calls[idx]["rows"] for idx in mine],
+                                     [(local[idx], row) for idx, row in spy.events if idx in local], si)
+            elif step[0] == "inter":
+                _, cidx, groups = step
+                if cidx >= len(alias) or alias[cidx] is None:
+                    continue
+                rec = recs[alias[cidx]]
+                W, H = rec.d["size"]
+                w, h = rec.d["image_size"]
+                if groups == "auto":
+                    small = W <= case.get("max_exh", (8, 6))[0] and H <= case.get("max_exh", (8, 6))[1]
+                    groups = auto_groups(case, W, H, w, h, si, case.get("n_groups", 12 if small else 8))
+                if rec.enc(rec.canv.content()) != (rec.d["fd"], rec.d["full"]):
+                    rec.d["full_later_same"] = False
+                for g in groups:
+                    run_group(rec, g["reqs"], g["sched"], si, 4 * H + 8)
             else:
                 _, cidx, trims = step
+                if cidx >= len(alias) or alias[cidx] is None:
+                    continue
                 rec = recs[alias[cidx]]
                 canv = rec.canv
                 W, H = rec.d["size"]
@@ -210,13 +562,16 @@ def run_case(case):
                     rec.d["obs_step"].append(si)
         for rec in recs:
             rec.d["tbl"] = rec.tbl
-        return {"canvases": [r.d for r in recs], "alias": alias}
+        return {"canvases": [r.d for r in recs], "alias": alias, "ph": phs}
     except Exception as e:
         import traceback
         where = " <- ".join(f"{fr.filename.rsplit('/', 1)[-1]}:{fr.lineno} {fr.name}"
                             for fr in reversed(traceback.extract_tb(e.__traceback__)[-4:]))
         return {"error": f"{type(e).__name__}: {e} at {where} (step {locals().get('si')}: {locals().get('step')})"}
     finally:
+        if failure:
+            failure.cleanup()
+        UrwidImage._ti_error_placeholder = None
         ITerm2Image._TERM = ""
         UrwidImageCanvas._ti_disguise_state = 0
         tests.set_terminal_name_version(*saved_term)
